@@ -12,7 +12,11 @@ r = Run('setup')
 try:
     replay.build(r, 'c21')
     replay.build(r, 'c31', deps=('erg_common',))
+    replay.build(r, 'c06')
     print("setup: replay binaries built")
+    from units.C14.cex import build_erg
+    build_erg(r)     # the compiler binary used by the C14 .pyc structure check (and the line-table replay)
+    print("setup: erg binary built")
 except Exception as e:   # not fatal: the checks build what they need themselves
     print("setup: pre-build skipped:", str(e)[-300:])
 shutil.rmtree(r.scratch, ignore_errors=True)
